@@ -23,6 +23,9 @@ REQUIRED_THEOREMS = []
 if os.path.exists(os.path.join(vlib.LEAN_DIR, "Yarel", "Props", "C05Tables.lean")):
     THEOREM_MODULES.append("Yarel.Props.C05Tables")
     REQUIRED_THEOREMS += ["rules_order", "infix_defined", "binary_prec_succ_ok"]
+if os.path.exists(os.path.join(vlib.LEAN_DIR, "Yarel", "Props", "SpecBase.lean")):
+    THEOREM_MODULES.append("Yarel.Props.SpecBase")
+    REQUIRED_THEOREMS += ["run_fuel_mono", "runSnippet_fuel_mono", "step_printed", "run_printed_prefix", "prec_ladder", "infix_rules_sane"]
 if os.path.exists(os.path.join(vlib.LEAN_DIR, "Yarel", "Props", "SpecTables.lean")):
     THEOREM_MODULES.append("Yarel.Props.SpecTables")
     REQUIRED_THEOREMS += ["spec_rules_are_the_sources", "spec_token_kinds_are_the_sources", "spec_precedences_are_the_sources", "spec_limits_are_the_sources", "spec_natives_are_the_sources"]
